@@ -57,6 +57,14 @@ func SetTimeout(fn func(), sleep time.Duration) *Timer {
 		select {
 		case <-timer.timer.C:
 			vhook.Yield("timer.timeout.tick")
+			timer.mu.Lock()
+			stopped := timer.stopped
+			timer.mu.Unlock()
+			if stopped {
+				// Stop ran after this tick was received: it could not signal
+				// stopCh and has returned, so the callback must not start.
+				return
+			}
 			fn()
 		case <-timer.stopCh:
 			return
